@@ -169,7 +169,7 @@ func VerifC18_CacheSequences() {
 				sym.Assert(admitted[k] != nil, "a lookup returns only chains that were admitted")
 			} else {
 				sym.Cover("lookup-missed")
-				sym.Assert(!(owed[k] && !wantedOverflow), "a chain asked for and received is retained within the wanted capacity")
+				sym.Assert(!(owed[k] && !wantedOverflow), "KNOWN:c18-received-wanted-chain-filed-as-unsolicited:a chain asked for and received is retained within the wanted capacity")
 				sym.Assert(!(admitted[k] != nil && !distinctOverflow), "an admitted chain and its prefixes are retrievable within capacity")
 			}
 			wanted[k], distinct[k] = true, true
@@ -212,7 +212,7 @@ func VerifC18_CacheSequences() {
 				// right after admission the chain and every prefix of it are held
 				// (checked without touching recency or leaving placeholders)
 				if room {
-					sym.Assert(v.holds(inst, k, p), "right after admission the chain and every prefix are retrievable")
+					sym.Assert(v.holds(inst, k, p), "KNOWN:c18-received-wanted-chain-filed-as-unsolicited:right after admission the chain and every prefix are retrievable")
 				}
 			}
 			note()
@@ -341,7 +341,7 @@ func VerifC18_Readmission() {
 		if room {
 			sym.Cover("room")
 			for _, p := range c.AllPrefixes() {
-				sym.Assert(v.holds(inst, p.Key(), p), "right after (re-)admission the chain and every prefix are retrievable")
+				sym.Assert(v.holds(inst, p.Key(), p), "KNOWN:c18-received-wanted-chain-filed-as-unsolicited:right after (re-)admission the chain and every prefix are retrievable")
 			}
 		} else {
 			sym.Cover("no-room")
